@@ -36,5 +36,11 @@ CORPUS = [
     Mut('c12-benign-where-with-safe-denominator', 'torchtree/evolution/coalescent.py', '', "        integral = intervals / pop_sizes[..., 1:-1]\n        idx = (diff_thetas != 0.0).nonzero(as_tuple=True)\n        integral[idx] = intervals[idx] * diff_log_thetas[idx] / diff_thetas[idx]\n",
         "        safe = torch.where(diff_thetas != 0.0, diff_thetas, torch.ones_like(diff_thetas))\n        integral = torch.where(diff_thetas != 0.0, intervals * diff_log_thetas / safe, intervals / pop_sizes[..., 1:-1])\n", benign=True, mode='text'),
     Mut('c12-math-log-of-parameter', 'torchtree/evolution/coalescent.py', '', "            self.alpha * math.log(self.beta)", "            self.alpha * math.log(node_heights[..., -1])", expect=[('C12.D', 'math()')], mode='text'),
+    Mut('c12-event-times-rounded', 'torchtree/evolution/bdsk.py', '', "        y = times[..., -1:] - tip_heights\n", "        y = torch.round(times[..., -1:] - tip_heights, decimals=10)\n", expect=[('C12.D', 'zero-derivative')], mode='text'),
+    Mut('c12-branch-gradient-clamped-by-a-hook', 'torchtree/evolution/tree_likelihood.py', '', "        mats = self.subst_model.p_t(bls.reshape(sample_shape + (-1, 1)) * rates)\n",
+        "        if bls.requires_grad:\n            bls.register_hook(lambda grad: grad.clamp(min=-1.0e6, max=1.0e6))\n        mats = self.subst_model.p_t(bls.reshape(sample_shape + (-1, 1)) * rates)\n", expect=[('C12.D', 'gradient-hook')], mode='text'),
+    Mut('c12-parameter-value-copied-into-the-old-leaf', 'torchtree/core/parameter.py', 'Parameter', 'self._tensor = tensor', 'if tensor.shape == self._tensor.shape and tensor.grad_fn is None:\n    with torch.no_grad():\n        self._tensor.copy_(tensor)\nelse:\n    self._tensor = tensor', nth=1,
+        expect=[('C12.S', 'Parameter.tensor.setter')]),
+    Mut('c12-benign-floor-of-a-shape', 'torchtree/evolution/bdsk.py', '', "        y = times[..., -1:] - tip_heights\n", "        y = times[..., -1:] - tip_heights\n        half = math.floor(y.shape[-1] / 2)\n", benign=True, mode='text'),
 ]
 CORPUS = [m for m in CORPUS if m.id != 'c12-kernel-detach']
